@@ -265,7 +265,8 @@ func zzNativeFiles(dir, path string, pos int64) []zzFileView {
 }
 
 // C07/two-writes: two consecutive writes, each forcing a rotation, with the clock free
-// to stay within one second: the second rotation must not overwrite the first.
+// to stay within one second - by one writer instance or by two (restart in between): the
+// second rotation must not overwrite the first.
 func zzH_C07_twice() {
 	maxSize := int64(1024)
 	path := "/var/log/honeytrap.log"
@@ -289,6 +290,13 @@ func zzH_C07_twice() {
 	b2 := []byte("cc\n")
 	_, err = rf.Write(b1)
 	zzAssert(err == nil, "first write succeeds")
+	if zzBool() {
+		// the process (or the channel) is restarted between the two writes: a new writer
+		// instance on the same path, possibly still within the same second
+		rf.Close()
+		rf, err = OpenRotateFile(path, 0o600, maxSize)
+		zzAssume(err == nil)
+	}
 	_, err = rf.Write(b2)
 	zzAssert(err == nil, "second write succeeds")
 	lines := [][]byte{[]byte("aa"), bytes.Repeat([]byte{'b'}, int(maxSize)-1), []byte("cc")}
